@@ -440,7 +440,7 @@ func (x *Exec) collectCallMods(cc *ssa.CallCommon, in ssa.Instruction, seen map[
 		}
 		return false
 	}
-	if c := x.cs.Funcs[key]; c != nil && (c.HasAssigns || c.Pure) {
+	if c := x.contractFor(key); c != nil && (c.HasAssigns || c.Pure) {
 		if len(c.Assigns) > 0 {
 			ms, a2 := x.contractModKeys(c, cf)
 			for _, m := range ms {
